@@ -83,3 +83,5 @@ def run(ctx):
     cancellation.check(ctx, ctx.crate("rel"), ['nested::Layer::hash', 'nested::Layer::center', 'nested::Layer::sph_coo', 'nested::Layer::vertices', 'nested::Layer::vertex', 'nested::Layer::hash_with_dxdy', 'nested::Layer::grid', 'nested::Layer::path_along_cell_edge', 'nested::Layer::path_along_cell_side'], floor=26)
     from rules import controls
     controls.guard_controls(ctx)
+    from rules import controls as _controls
+    _controls.feval_controls(ctx)
